@@ -363,6 +363,30 @@ func protocol() {
 					out = "ok " + strings.Join(l, ",")
 				}
 			}
+		case len(f) == 4 && f[0] == "meta":
+			// meta <needRt 0|1> <needPyInit 0|1> <link args list>: saveToCache then tryLoadFromCache, print what comes back
+			args, err := unlist(f[3])
+			if err != nil {
+				break
+			}
+			ar := filepath.Join(root, "pkg.a")
+			os.WriteFile(ar, []byte("!<arch>\n"), 0o644)
+			croot := filepath.Join(root, "cache-"+strconv.Itoa(n))
+			hit, rt, py, got, err := build.VerifMetaRoundTrip(croot, f[1] == "1", f[2] == "1", args, ar)
+			os.RemoveAll(croot)
+			if err != nil {
+				out = "err " + err.Error()
+				break
+			}
+			l := make([]string, len(got))
+			for j, a := range got {
+				l[j] = vhex(a)
+			}
+			ls := "."
+			if len(l) > 0 {
+				ls = strings.Join(l, ",")
+			}
+			out = fmt.Sprintf("ok hit=%v %s %s %s", hit, map[bool]string{true: "1", false: "0"}[rt], map[bool]string{true: "1", false: "0"}[py], ls)
 		case len(f) >= 3 && f[0] == "key":
 			out = handleKey(root, n, f[1:])
 		}
@@ -422,9 +446,30 @@ func doBuild(args []string) {
 		}
 		conf.GlobalRewrites[pkg][name] = val
 	}
-	if _, err := build.Do(fs.Args(), conf); err != nil {
+	pkgs, err := build.Do(fs.Args(), conf)
+	if err != nil {
 		fmt.Fprintln(os.Stderr, err)
 		os.Exit(1)
+	}
+	// what the build ended up with per package: metadata recomputed by the compiler (cache miss) or read back from the
+	// cache manifest (cache hit).  One line per package: path, hit, need_rt, need_pyinit, link args (hex list)
+	if mo := os.Getenv("VERIF_META_OUT"); mo != "" {
+		var b strings.Builder
+		for _, p := range pkgs {
+			if p == nil || p.Package == nil {
+				continue
+			}
+			l := make([]string, len(p.LinkArgs))
+			for j, a := range p.LinkArgs {
+				l[j] = vhex(a)
+			}
+			ls := "."
+			if len(l) > 0 {
+				ls = strings.Join(l, ",")
+			}
+			fmt.Fprintf(&b, "%s %v %v %v %s\n", p.PkgPath, p.CacheHit, p.NeedRt, p.NeedPyInit, ls)
+		}
+		os.WriteFile(mo, []byte(b.String()), 0o644)
 	}
 }
 
